@@ -12,7 +12,7 @@ import os
 
 from harness.c17.util import report
 from harness.vlib.core import Ctx, ToolFailure
-from harness.c17.resolution import run_driver_sharded, show_val
+from harness.c17.resolution import corpus, run_driver_sharded, show_val
 
 TRUE_WORDS = ["True", "yes", "1", "on", "TRUE"]
 FALSE_WORDS = ["False", "no", "0", "off"]
@@ -232,7 +232,7 @@ def inline_correspondence(ctx: Ctx) -> None:
     from mypy.config_parser import parse_mypy_comments
     from mypy.options import Options
     rng = ctx.rng
-    cases = []
+    cases = [list(c) for c in corpus().get("inline", [])]
     for _ in range(ctx.pick(300, 3000)):
         nlines = rng.randint(1, 4)
         cases.append([", ".join(rng.sample(INLINE_ATOMS, rng.randint(1, 3))) for _ in range(nlines)])
@@ -317,7 +317,7 @@ def real_process(ctx: Ctx, ini: list[str], cli: list[str], n: int) -> str:
 
 def process_correspondence(ctx: Ctx) -> None:
     rng = ctx.rng
-    cases = []
+    cases = [(c["ini"], c["cli"]) for c in corpus().get("process", [])]
     for _ in range(ctx.pick(250, 2500)):
         ini = []
         seen = set()
